@@ -300,6 +300,10 @@ def maybe_collide(rng, sd):
     if rng.random() < 0.3:
         pool = [f"n{i}" for i in range(max(sd["nos"], sd["nsrv"], sd["nproc"]) + 1)]
         sd["names"] = (rng.sample(pool, sd["nos"]), rng.sample(pool, sd["nsrv"]), rng.sample(pool, sd["nproc"]))
+    elif rng.random() < 0.15:
+        # long names that agree in their first thirty characters ("names can be anything")
+        mk = lambda kind, n: [f"internal-{kind}-gateway-service-release-candidate-v{i}" for i in range(n)]   # noqa: E731
+        sd["names"] = (mk("os", sd["nos"]), mk("service", sd["nsrv"]), mk("process", sd["nproc"]))
     # an exploit and an escalation may carry the same name (two separate dicts), also the name of a scan
     sd.pop("anames", None)
     if rng.random() < 0.25:
